@@ -734,6 +734,15 @@ impl Catalog {
         object_id
     }
 
+    /// Recovery replays a CREATE under the object ID it was logged with: ids used up by
+    /// transactions that are not replayed must be skipped.
+    pub(crate) fn advance_next_object_id(&self, id: ObjectId) {
+        let mut pager = self.pager.write();
+        if pager.get_last_stored_object() < id {
+            pager.set_last_stored_object(id);
+        }
+    }
+
     /// Gets a relation from the meta table
     pub(crate) fn get_relation(
         &self,
